@@ -122,6 +122,56 @@ theorem frontier_ge (h : List Seg) (m n : Nat) (hn : n ≤ m) (hc : ∀ p, p < n
       rw [if_neg (by omega), if_pos (hc m (by omega))]
       omega
 
+theorem frontier_below (h : List Seg) (n p : Nat) (hp : p < frontier h n) : covered h p = true := by
+  induction n with
+  | zero => simp [frontier] at hp
+  | succ n ih =>
+    simp only [frontier] at hp
+    have hle := frontier_le h n
+    split at hp
+    · exact ih hp
+    · next hk =>
+      have hk' : frontier h n = n := by omega
+      split at hp
+      · next hc =>
+        by_cases e : p = n
+        · rw [e]; exact hc
+        · exact ih (by omega)
+      · exact ih (by omega)
+
+theorem advanceFrom_eq (h : List Seg) (n fuel k : Nat) (hk : k ≤ n) (hbelow : ∀ p, p < k → covered h p = true)
+    (hf : n - k < fuel) : advanceFrom h n fuel k = frontier h n := by
+  induction fuel generalizing k with
+  | zero => omega
+  | succ fuel ih =>
+    simp only [advanceFrom]
+    split
+    · next hc =>
+      apply ih (k + 1) (by omega) _ (by omega)
+      intro p hp
+      by_cases e : p = k
+      · rw [e]; exact hc.2
+      · exact hbelow p (by omega)
+    · next hc =>
+      symm
+      apply frontier_eq h n k hk hbelow
+      by_cases e : k = n
+      · exact Or.inl e
+      · right
+        cases hcv : covered h k with
+        | false => rfl
+        | true => exact absurd ⟨by omega, hcv⟩ hc
+
+/-- the oracle's incremental frontier is the spec's frontier -/
+theorem frontier_cons_advance (g : Seg) (h : List Seg) (n : Nat) :
+    advanceFrom (g :: h) n (n + 1) (frontier h n) = frontier (g :: h) n := by
+  apply advanceFrom_eq _ _ _ _ (frontier_le h n)
+  · intro p hp
+    have h1 := frontier_below h n p hp
+    unfold covered at h1 ⊢
+    rw [List.any_cons, h1, Bool.or_true]
+  · have := frontier_le h n; omega
+
 /-- a history whose segments satisfy the static condition is valid -/
 theorem histOK_of_static {s : Bytes} {h : List SegD} (hall : ∀ g ∈ h, g.okStatic s) : HistOK s h := by
   induction h with
